@@ -643,6 +643,11 @@ void point_slow(int kind, const void* addr) {
         }
     }
     if (kind == K_PAUSE || kind == K_YIELD) cur->spin_points++;
+    if (kind == K_USER) {   // two different fibers interleave inside harness bodies: the run is inside the operation window
+        static int last_user_fiber = -1;
+        if (last_user_fiber >= 0 && last_user_fiber != cur->id && g_fibers[last_user_fiber]->state != F_DONE) g_window = 1;
+        last_user_fiber = cur->id;
+    }
     schedule(kind);
     if (g_watch_fn && (const char*)addr >= g_watch_lo && (const char*)addr < g_watch_hi) g_watch_fn(kind, addr);
 }
